@@ -12,6 +12,7 @@ import (
 	"sort"
 	"strings"
 	"sync"
+	"sync/atomic"
 	"time"
 
 	"github.com/openconfig/gnmi/zzverif/vrt"
@@ -63,6 +64,8 @@ type ItemResult struct {
 	Sample     string           `json:"sample,omitempty"`
 }
 
+var progress int64 // executions finished by this worker process (watchdog)
+
 type worker struct {
 	race     *raceWatcher
 	h        Harness
@@ -88,6 +91,7 @@ func (w *worker) process(it Item) ItemResult {
 			return
 		}
 		out, res, c := execOnce(w.h, cfg, devs, false)
+		atomic.AddInt64(&progress, 1)
 		out.Violations = append(out.Violations, w.race.poll()...)
 		if c.diverged != "" {
 			r.Machinery = fmt.Sprintf("cfg %s: %s", cfg.Name, c.diverged)
@@ -323,10 +327,14 @@ func runWorker(h Harness, tier string, cfgs []Config, known map[string]bool, rac
 	last := time.Now()
 	busy := false
 	go func() {
+		var seen int64 = -1
 		for {
 			time.Sleep(5 * time.Second)
 			mu.Lock()
-			stuck := busy && time.Since(last) > 10*time.Minute
+			if p := atomic.LoadInt64(&progress); p != seen {
+				seen, last = p, time.Now()
+			}
+			stuck := busy && time.Since(last) > 120*time.Second
 			mu.Unlock()
 			if stuck {
 				fmt.Fprintln(os.Stderr, "MACHINERY: worker watchdog expired")
